@@ -32,12 +32,13 @@ EXTENDS Integers, Sequences, FiniteSets, TLC, Json
 
 CONSTANTS H,                \* half width of the grid
           Boxes,            \* box codes (see BoxOf)
-          MaxBoxes, MaxOps,
+          MinBoxes, MaxBoxes, MaxOps,   \* operations start once MinBoxes..MaxBoxes boxes exist
           Quarters,         \* quarter turns, subset of 1..3
           Shifts,           \* pair codes of <<dx,dy>>
           Factors,          \* pair codes of <<fx,fy>>, fx, fy in {-2,-1,1,2}
           Origins,          \* pair codes of <<ox,oy>>
           MaxHoles,
+          Chained,          \* TRUE: every operation involves the result of the previous one (chains proper)
           PolyOps,          \* subset of {"setop","rotate","translate","scale","copy","poke"}
           DevOps,           \* subset of {"mkdev","devcopy","devtranslate","devrotate","devscale"}
           MSubIsDifference, \* `a - b` / difference() is the set difference
@@ -276,18 +277,23 @@ New == /\ nops = 0 /\ Len(objs) < MaxBoxes /\ devs = <<>>
 Ids == 1 .. Len(objs)
 HoleSeqs == {<<>>} \cup (IF MaxHoles >= 1 THEN {<<j>> : j \in Ids} ELSE {})
                    \cup (IF MaxHoles >= 2 THEN {<<j, k>> : j, k \in Ids} ELSE {})
-CanOp == nops < MaxOps /\ objs # <<>>
-ASetOp == CanOp /\ "setop" \in PolyOps /\ \E kind \in {"union", "intersection", "difference"}, a, b \in Ids : DoSetOp(kind, a, b)
-ARotate == CanOp /\ "rotate" \in PolyOps /\ \E a \in Ids, q \in Quarters, oc \in Origins, ip \in BOOLEAN : DoRotate(a, q, oc, ip)
-ATranslate == CanOp /\ "translate" \in PolyOps /\ \E a \in Ids, sc \in Shifts, ip \in BOOLEAN : DoTranslate(a, sc, ip)
-AScale == CanOp /\ "scale" \in PolyOps /\ \E a \in Ids, fc \in Factors, oc \in Origins, ip \in BOOLEAN : DoScale(a, fc, oc, ip)
-ACopy == CanOp /\ "copy" \in PolyOps /\ \E a \in Ids : DoCopy(a)
-APoke == CanOp /\ "poke" \in PolyOps /\ \E a \in Ids, sc \in Shifts : DoPoke(a, sc)
-AMkDev == CanOp /\ "mkdev" \in DevOps /\ \E f \in Ids, hs \in HoleSeqs : DoMkDev(f, hs)
-ADevCopy == CanOp /\ "devcopy" \in DevOps /\ \E d \in 1 .. Len(devs) : DoDevCopy(d)
-ADevTranslate == CanOp /\ "devtranslate" \in DevOps /\ \E d \in 1 .. Len(devs), sc \in Shifts, ip \in BOOLEAN : DoDevTranslate(d, sc, ip)
-ADevRotate == CanOp /\ "devrotate" \in DevOps /\ \E d \in 1 .. Len(devs), q \in Quarters, oc \in Origins : DoDevRotate(d, q, oc)
-ADevScale == CanOp /\ "devscale" \in DevOps /\ \E d \in 1 .. Len(devs), fc \in Factors, oc \in Origins : DoDevScale(d, fc, oc)
+CanOp == nops < MaxOps /\ objs # <<>> /\ (nops > 0 \/ Len(objs) >= MinBoxes)
+DevOpNames == {"mkdev", "devcopy", "devtranslate", "devrotate", "devscale"}
+MemberSet(dv) == {dv.film} \cup {dv.holes[k] : k \in 1 .. Len(dv.holes)}
+Free == ~Chained \/ nops = 0 \/ last.o.out # "ok"
+Foc(S) == Free \/ (IF last.o.op \in DevOpNames THEN MemberSet(devs[last.o.res]) \cap S # {} ELSE last.o.res \in S)
+FocD(d) == Free \/ (IF last.o.op \in DevOpNames THEN d = last.o.res ELSE last.o.res \in MemberSet(devs[d]))
+ASetOp == CanOp /\ "setop" \in PolyOps /\ \E kind \in {"union", "intersection", "difference"}, a, b \in Ids : Foc({a, b}) /\ DoSetOp(kind, a, b)
+ARotate == CanOp /\ "rotate" \in PolyOps /\ \E a \in Ids, q \in Quarters, oc \in Origins, ip \in BOOLEAN : Foc({a}) /\ DoRotate(a, q, oc, ip)
+ATranslate == CanOp /\ "translate" \in PolyOps /\ \E a \in Ids, sc \in Shifts, ip \in BOOLEAN : Foc({a}) /\ DoTranslate(a, sc, ip)
+AScale == CanOp /\ "scale" \in PolyOps /\ \E a \in Ids, fc \in Factors, oc \in Origins, ip \in BOOLEAN : Foc({a}) /\ DoScale(a, fc, oc, ip)
+ACopy == CanOp /\ "copy" \in PolyOps /\ \E a \in Ids : Foc({a}) /\ DoCopy(a)
+APoke == CanOp /\ "poke" \in PolyOps /\ \E a \in Ids, sc \in Shifts : Foc({a}) /\ DoPoke(a, sc)
+AMkDev == CanOp /\ "mkdev" \in DevOps /\ \E f \in Ids, hs \in HoleSeqs : Foc({f} \cup {hs[k] : k \in 1 .. Len(hs)}) /\ DoMkDev(f, hs)
+ADevCopy == CanOp /\ "devcopy" \in DevOps /\ \E d \in 1 .. Len(devs) : FocD(d) /\ DoDevCopy(d)
+ADevTranslate == CanOp /\ "devtranslate" \in DevOps /\ \E d \in 1 .. Len(devs), sc \in Shifts, ip \in BOOLEAN : FocD(d) /\ DoDevTranslate(d, sc, ip)
+ADevRotate == CanOp /\ "devrotate" \in DevOps /\ \E d \in 1 .. Len(devs), q \in Quarters, oc \in Origins : FocD(d) /\ DoDevRotate(d, q, oc)
+ADevScale == CanOp /\ "devscale" \in DevOps /\ \E d \in 1 .. Len(devs), fc \in Factors, oc \in Origins : FocD(d) /\ DoDevScale(d, fc, oc)
 Next == \/ New \/ ASetOp \/ ARotate \/ ATranslate \/ AScale \/ ACopy \/ APoke
         \/ AMkDev \/ ADevCopy \/ ADevTranslate \/ ADevRotate \/ ADevScale
 Spec == Init /\ [][Next]_vars
